@@ -254,9 +254,19 @@ def harvest_obfuscation_vectors() -> list:
     return out
 
 
+def pinned_from() -> str:
+    import subprocess
+    try:
+        return subprocess.run(['git', '-C', REPO, 'log', '-1', '--format=%H %s', '--', 'src/aioslsk/protocol',
+                               'tests/unit/protocol'], capture_output=True, text=True, timeout=20).stdout.strip()
+    except Exception:  # noqa
+        return 'unknown'
+
+
 def main():
     os.makedirs(OUT, exist_ok=True)
     layout = extract_layout()
+    layout['pinned_from'] = pinned_from()
     with open(os.path.join(OUT, 'layout.json'), 'w') as fh:
         json.dump(layout, fh, indent=1, sort_keys=False)
     fam = {}
@@ -269,7 +279,7 @@ def main():
     obf = harvest_obfuscation_vectors()
     with open(os.path.join(OUT, 'vectors.json'), 'w') as fh:
         json.dump({'note': 'PINNED DATA harvested once from tests/unit/protocol (hand-written pairs).',
-                   'harvest_stats': stats, 'messages': vectors, 'obfuscation': obf}, fh, indent=1)
+                   'pinned_from': layout['pinned_from'], 'harvest_stats': stats, 'messages': vectors, 'obfuscation': obf}, fh, indent=1)
     print('vectors.json:', len(vectors), 'distinct message vectors;', len(obf), 'obfuscation vectors')
     print(json.dumps(stats, indent=1))
     covered = {v['cls'] for v in vectors}
